@@ -3,6 +3,7 @@
 
      sdp.go:extractFingerprint / extractBundleID      -> extract_fingerprint
      dtlstransport.go:validateFingerPrint             -> validate
+     dtlstransport.go:verifyPeerCertificateFunc       -> verify_peer
      sdp.go:populateSDP (fingerprint lines only) and
        certificate.go:GetFingerprints                 -> advertise, get_fingerprints
 
@@ -137,6 +138,38 @@ Section Hash.
     | None => Err "fingerprint-failed"
     end.
 End Hash.
+
+(* dtlstransport.go:verifyPeerCertificateFunc, the VerifyPeerCertificate
+   callback handed to pion/dtls.  rawCerts is the certificate chain of the
+   peer's Certificate message, the leaf (the certificate whose key signs the
+   handshake) first.  The callback records rawCerts[0] as the remote
+   certificate (GetRemoteCertificate) and validates THAT certificate only;
+   nothing after the first entry is looked at.  parse is
+   x509.ParseCertificate (None: error); disabled is
+   SettingEngine.DisableCertificateFingerprintVerification.  The result is
+   (t.remoteCertificate afterwards, the returned error). *)
+Section Chain.
+  Variable raw cert : Type.
+  Variable parse : raw -> option cert.
+  Variable H : string -> cert -> option string.
+
+  Definition verify_peer (disabled : bool) (fps : list (string * string)) (chain : list raw)
+    : option raw * result unit :=
+    match chain with
+    | [] => (None, Err "no-remote-certificate")        (* len(rawCerts) == 0 *)
+    | leaf :: _ =>
+        (Some leaf,
+         if disabled then Ok tt
+         else match parse leaf with
+              | None => Err "parse-error"
+              | Some c => validate cert H fps c
+              end)
+    end.
+
+  (* "the presented certificate matches a signalled fingerprint" *)
+  Definition cert_matches (fps : list (string * string)) (c : cert) : Prop :=
+    exists a v h, In (a, v) fps /\ H a c = Some h /\ eqfold h v = true.
+End Chain.
 
 (* populateSDP, fingerprint lines only.  Every other attribute the generator
    writes is a parameter: the session attributes, and for each media section
